@@ -99,12 +99,18 @@ def SMap.drop (σ : SMap) (vs : List Sym) : SMap := σ.filter (fun kv => !vs.con
 def updSyms (I : Interp) (σ : SMap) : Interp :=
   { I with sym := fun x => match σ.get x with | some v => eval I v | none => I.sym x }
 
-/-- `I` updated with the supplied function interpretations -/
+/-- `I` updated with the supplied function interpretations: `f(v₁ … vₙ)` is the value of the body
+with the formal parameters bound to `v₁ … vₙ` (an application to another number of arguments, which
+no well-typed term contains, keeps its meaning) -/
 def updFns (I : Interp) (defs : List (Sym × Def)) : Interp :=
   { I with fn := fun f vs =>
       match (defs.find? (fun fd => fd.1 == f)).map (·.2) with
-      | some d => eval (I.bindMany (d.formals.zip vs)) d.body
+      | some d => if vs.length = d.formals.length then eval (I.bindMany (d.formals.zip vs)) d.body else I.fn f vs
       | none => I.fn f vs }
+
+/-- both updates at once -/
+def upd (I : Interp) (σ : SMap) (defs : List (Sym × Def)) : Interp :=
+  { I with sym := (updSyms I σ).sym, fn := (updFns I defs).fn }
 
 /-- The proviso of the property: no free symbol of a replacement term falls under a quantifier
 binding it. At a quantifier binding `vs` the keys in `vs` stop being replaced; every other key that
